@@ -230,6 +230,7 @@ func (g *c02Gen) stmt() {
 
 		f := g.fresh("f")
 		g.line("%s := %s", f, g.pick("1.5", "2.0 * 3", "7.0 / 2", "1 + 2.5", "0.1 + 0.2"))
+		g.declare(f, "float64")
 		g.line("%s = %s + 1", f, f)
 		g.line("%s++", f)
 		g.line("fmt.Println(%s, %s > 3)", f, f)
@@ -271,7 +272,8 @@ func (g *c02Gen) block(n int) {
 }
 
 // c02Program builds one complete program; feats lists the feature classes it contains.
-func c02Program(r *rand.Rand) (string, []string) {
+// r2 is the separate stream of the constant assignments interleaved with the statements.
+func c02Program(r, r2 *rand.Rand) (string, []string) {
 	g := &c02Gen{r: r, feats: map[string]bool{}}
 	g.late = r.Intn(5) == 0
 
@@ -320,6 +322,10 @@ func c02Program(r *rand.Rand) (string, []string) {
 				g.line("}")
 			} else {
 				g.stmt()
+			}
+
+			if r2.Intn(4) == 0 {
+				g.constAssign(r2)
 			}
 		}
 
